@@ -13,7 +13,7 @@ EXPLANATION = ('Decided: the only panic sites reachable from the public unmanage
                'queue.pop() is not unwrapped after the permit was taken (close() can empty the queue in between); close() closes both semaphores '
                'before clearing the queue; the return path clears a closed pool after its push; every acquisition error Closed maps to PoolError::Closed.')
 
-PUBLIC = ['get', 'try_get', 'timeout_get', 'add', 'try_add', 'remove', 'try_remove', 'timeout_remove', 'close', 'is_closed', 'status', 'new', 'from_config']
+PUBLIC = ['get', 'try_get', 'timeout_get', 'add', 'try_add', 'remove', 'try_remove', 'timeout_remove', 'close', 'is_closed', 'status']
 
 
 def run(ctx):
@@ -25,7 +25,8 @@ def run(ctx):
             b = prog.body(cand)
             if b is not None:
                 roots.append(b.path)
-    roots += [r.OBJ_DROP.path, r.TAKE.path, r.FROM_ITER.path]
+    # (constructors are not among the calls the property lists; they are C05's subject - R05.4 evaluates their books)
+    roots += [r.OBJ_DROP.path, r.TAKE.path]
     roots += [b.path for b in r.bodies() if b.j.get('impl_trait') in ('std::ops::Deref', 'std::ops::DerefMut', 'std::ops::Drop', 'std::convert::AsRef', 'std::convert::AsMut')]
     region = sorted(p for p in prog.region(roots) if p.startswith('deadpool::unmanaged') or p.startswith('<deadpool::unmanaged'))
 
